@@ -1,7 +1,66 @@
 /-
 C10 — property theorems (statements, short proofs from the lemmas of Proofs*.lean, non-vacuity examples).
+All theorems quantify over every configuration (any number of items, any worker count, arbitrary finite
+user scripts, any position of a cancel / panic / context end) and over every schedule (`Reach`).
 -/
-import GoZero.C10.Proofs
+import GoZero.C10.ProofsB
 namespace GoZero.C10
+
+/-! ### (b) at most `workers` mappers run concurrently -/
+
+/-- **Mapper cap.**  In every reachable configuration the number of mapper goroutines that hold a pool
+slot — in particular the number of running user mapper functions — is at most `workers`. -/
+theorem mapper_cap (c : Cfg) (s : St) (h : Reach c s) :
+    cnt mRunning s.mp c.n ≤ c.workers ∧ cnt inPool s.mp c.n ≤ c.workers := by
+  have I := invB_reach h
+  have h1 : cnt mRunning s.mp c.n ≤ cnt inPool s.mp c.n :=
+    cnt_mono _ _ _ _ (by intro x hx; cases x <;> simp_all [mRunning, inPool])
+  have := I.poolc
+  have := I.poolle
+  omega
+
+/-- the wait group counts exactly the live mapper goroutines, and the collector is never closed while a
+mapper goroutine can still write to it (the model's `crash` state is unreachable). -/
+theorem collector_open_while_mappers_run (c : Cfg) (s : St) (h : Reach c s) :
+    s.wg = cnt inWg s.mp c.n ∧ (s.collClosed = true → s.wg = 0) ∧ ∀ i, s.mp i ≠ .crash := by
+  have I := invB_reach h
+  exact ⟨I.wgc, fun hc => I.dafter (I.collc hc).1, I.nocrash⟩
+
+/-! ### (c) the returned-error table -/
+
+/-- **Returned-error table.**  Whatever the schedule, a finished call has an outcome of the table
+`allowed`: a value the reducer wrote; an error some script passed to `cancel` (`ErrCancelWithNil` for
+nil); `DeadlineExceeded` only if the context can end; `ErrReduceNoOutput`; or a re-raised panic — of the
+generator / a mapper / the reducer only if that script panics, the library's "more than one element"
+only if the reducer writes twice, and the runtime's "send on closed channel" only if the reducer writes
+while somebody cancels or the context ends. -/
+theorem returns_expected_error (c : Cfg) (s : St) (h : Reach c s) (r : Res) (hr : result s = some r) :
+    allowed c r = true := by
+  have I := invC_reach h
+  unfold result at hr
+  split at hr
+  next r' hc => simp at hr; subst hr; exact I.cres r' (Or.inr (Or.inr hc))
+  next => simp at hr
+
+/-- spelled out for errors: a cancel error was passed to `cancel` by a script of this call. -/
+theorem cancel_error_was_passed (c : Cfg) (s : St) (h : Reach c s) (k : Nat)
+    (hr : result s = some (.err (.user k))) :
+    (∃ i, i < c.n ∧ UAct.cancel (some k) ∈ c.mscript i) ∨ UAct.cancel (some k) ∈ c.rscript := by
+  have := returns_expected_error c s h _ hr
+  simp only [allowed, anyScript, anyMapper, Bool.or_eq_true, List.any_eq_true, List.mem_range,
+    List.contains_iff_mem] at this
+  exact this
+
+/-- a context error is returned only if the context can end. -/
+theorem deadline_only_if_context_ends (c : Cfg) (s : St) (h : Reach c s)
+    (hr : result s = some (.err .deadline)) : c.ctxCan = true ∨ c.ctxPre = true := by
+  have := returns_expected_error c s h _ hr
+  simpa [allowed] using this
+
+/-- a re-raised mapper panic is a panic of that mapper's script. -/
+theorem reraised_panic_is_user_panic (c : Cfg) (s : St) (h : Reach c s) (i : Nat)
+    (hr : result s = some (.panic (.mapper i))) : i < c.n ∧ UAct.panic ∈ c.mscript i := by
+  have := returns_expected_error c s h _ hr
+  simpa [allowed, hasPanic] using this
 
 end GoZero.C10
